@@ -37,6 +37,9 @@ def evaluate(prop, facts, tier):
             ctx.clauses.append("accessor ranges of the anchor files: loops handing operation indices / chambers to D-set accessors still end inclusively at dim() / size() where the reference did (T12, %d sites)" % n2)
             n3 = structure.check_update_order(ctx, files, relevant=rel)
             n4 = structure.check_flows(ctx, files, relevant=rel)
+            if any(f in structure.WORD_FILES for f in files):
+                n5 = structure.check_words(ctx, files)
+                ctx.clauses.append("chamber words in argument slots and tests of the simplification moves equal the reference surgery modulo d.i.i = d and commuting operations (T18, %d functions)" % n5)
             ctx.clauses.append("tuple components reach the same argument slots as on the reference tree (T17, %d functions)" % n4)
             ctx.clauses.append("update order of loop-carried variables: each is read on the same side of its in-iteration overwrite as on the reference tree (T16, %d functions with loops)" % n3)
     except core.AnchorMissing as e:
